@@ -61,6 +61,8 @@ def c03(ctx, v):
     r_absent(ctx, v)
     M.r_once(ctx, v)  # the pop_*_if family removes exactly the element its predicate saw
     M.r_assign(ctx, v)
+    M.r_readers(ctx, v)
+    M.r_returns(ctx, v)
     D.r_keymut(ctx, v, only=("k3",))
     M.r_strat(ctx, v)
 
